@@ -173,7 +173,15 @@ Definition run (c : sx) : sx :=
       match asCalc cal, asNat nv, asB hs, asB hw, asListOf asSample ss, asListOf asNat nxxs, asListOf asQ dxxs with
       | Some cal', Some nv', Some hs', Some hw', Some ss', Some nxx, Some dxx =>
           let cf := {| c_calc := cal'; c_hasSel := hs'; c_hasW := hw'; c_dateLoop := false; c_dateChk := false; c_nvar := nv' |} in
-          ofBlocks (vmap_points cf ss' nxx dxx)
+          (* a pair with equal first coordinates (its order is decided by an unstable sort) of which exactly one of the two
+             opposite cells lies on the map: border case, not compared *)
+          let tie := existsb (fun p : sample * sample =>
+                                let dl := vsub (s_x (snd p)) (s_x (fst p)) in
+                                qeqb (x1 (fst p)) (x1 (snd p)) &&
+                                xorb (match point_cell nxx dxx dl with Some _ => true | None => false end)
+                                     (match point_cell nxx dxx (map Qopp dl) with Some _ => true | None => false end))
+                             (all_pairs (filter (is_active cf) ss')) in
+          L [ofB tie; ofBlocks (vmap_points cf ss' nxx dxx)]
       | _, _, _, _, _, _, _ => sx_error 5
       end
   | L [I 5%Z; _ndim; hs; ss; dir; lnb; vnb; d0; d1] =>
@@ -185,6 +193,15 @@ Definition run (c : sx) : sx :=
           L [ofB (existsb (fun p : sample * sample => tie_pair dt (fst p) (snd p)) (cloud_pairs cf ss'));
              ofList ofZ (vcloud cf d lnb' vnb' d0' d1' ss')]
       | _, _, _, _, _, _, _ => sx_error 6
+      end
+  | L [I 6%Z; nord; nxs; dxs; x0s; cs; hs; dir] =>
+      match asNat nord, asListOf asNat nxs, asListOf asQ dxs, asListOf asQ x0s, asListOf asCell cs, asB hs, asDir [] dir with
+      | Some nord', Some nx, Some dx, Some x0, Some cs', Some hs', Some (d, _) =>
+          let cells := grid_samples nx dx x0 None cs' in
+          let cf := {| c_calc := Vg; c_hasSel := hs'; c_hasW := false; c_dateLoop := false; c_dateChk := false; c_nvar := 1 |} in
+          L [ofB (existsb (fun p : sample * sample => tie_pair d (fst p) (snd p)) (all_pairs cells));
+             ofBlocks (line_solution cf d nord' cells)]
+      | _, _, _, _, _, _, _ => sx_error 7
       end
   | _ => sx_error 0
   end.
